@@ -255,90 +255,146 @@ func init() {
 				b, ok := ast.Unparen(e).(*ast.BinaryExpr)
 				return ok && b.Op == op && prog.IdentObj(info, b.X) == types.Object(p0) && prog.IdentObj(info, b.Y) == types.Object(p1)
 			}
-			var remVar, quoVar, cursor types.Object
-			var loop *ast.RangeStmt
-			for _, st := range f.Decl.Body.List {
-				switch x := st.(type) {
-				case *ast.AssignStmt:
-					if len(x.Lhs) == 1 && len(x.Rhs) == 1 && x.Tok == token.DEFINE {
-						o := prog.IdentObj(info, x.Lhs[0])
-						switch {
-						case isBin(x.Rhs[0], token.REM):
-							remVar = o
-						case isBin(x.Rhs[0], token.QUO):
-							quoVar = o
-						default:
-							if tv, ok := info.Types[x.Rhs[0]]; ok && tv.Value != nil && tv.Value.String() == "0" {
-								cursor = o
+			// quotient / remainder of (count, n), wherever they are defined in the body
+			var remVar, quoVar types.Object
+			inspect(f.Decl.Body, func(nd ast.Node) bool {
+				if x, ok := nd.(*ast.AssignStmt); ok && len(x.Lhs) == 1 && len(x.Rhs) == 1 && x.Tok == token.DEFINE {
+					o := prog.IdentObj(info, x.Lhs[0])
+					switch {
+					case isBin(x.Rhs[0], token.REM):
+						remVar = o
+					case isBin(x.Rhs[0], token.QUO):
+						quoVar = o
+					}
+				}
+				return true
+			})
+			bad := func(tag, msg string) {
+				r.Fail(f.Name()+":"+tag, f.Decl.Pos(), nil, "keyGroupRanges does not build the canonical ranges: %s", msg)
+			}
+			// the loop that fills ranges[i]
+			var rangesVar types.Object
+			var makeLen ast.Expr
+			inspect(f.Decl.Body, func(nd ast.Node) bool {
+				if x, ok := nd.(*ast.AssignStmt); ok && len(x.Lhs) == 1 && len(x.Rhs) == 1 {
+					if call, ok := ast.Unparen(x.Rhs[0]).(*ast.CallExpr); ok {
+						if id, ok := call.Fun.(*ast.Ident); ok && id.Name == "make" && rangesVar == nil && len(call.Args) >= 2 {
+							rangesVar, makeLen = prog.IdentObj(info, x.Lhs[0]), call.Args[1]
+						}
+					}
+				}
+				return true
+			})
+			var loop *fullLoop
+			var idx types.Object
+			for _, lp := range fullLoopsOver(info, f.Decl.Body, func(e ast.Expr) bool { return rangesVar != nil && prog.IdentObj(info, e) == rangesVar }) {
+				lp := lp
+				loop, idx = &lp, lp.Idx
+			}
+			if loop == nil && makeLen != nil {
+				// for i := range n / for i := 0; i < n; i++ with n the length ranges was made with
+				inspect(f.Decl.Body, func(nd ast.Node) bool {
+					st, ok := nd.(ast.Stmt)
+					if !ok {
+						return true
+					}
+					if cnt, ok := countedLoop(info, st); ok && types.ExprString(stripConv(info, cnt)) == types.ExprString(stripConv(info, makeLen)) {
+						switch x := st.(type) {
+						case *ast.RangeStmt:
+							if x.Key != nil {
+								loop, idx = &fullLoop{Stmt: x, Body: x.Body}, prog.IdentObj(info, x.Key)
+							}
+						case *ast.ForStmt:
+							if b, ok := ast.Unparen(x.Cond).(*ast.BinaryExpr); ok {
+								loop, idx = &fullLoop{Stmt: x, Body: x.Body}, prog.IdentObj(info, b.X)
 							}
 						}
 					}
-				case *ast.RangeStmt:
-					loop = x
-				}
+					return true
+				})
 			}
-			bad := func(tag, msg string) {
-				r.Fail(f.Name()+":"+tag, f.Decl.Pos(), nil, "keyGroupRanges is not in canonical form: %s", msg)
-			}
-			if remVar == nil || quoVar == nil || cursor == nil || loop == nil {
-				bad("shape", fmt.Sprintf("need remainder=count%%n (%v), quotient=count/n (%v), cursor:=0 (%v) and one loop over the ranges (%v)", remVar != nil, quoVar != nil, cursor != nil, loop != nil))
+			if loop == nil || idx == nil {
+				bad("shape", "no loop over all ranges")
 				return
 			}
-			idx := prog.IdentObj(info, loop.Key)
-			var endVar types.Object
-			okEnd, okInc, okLit, okAdvance := false, false, false, false
-			var litPos, advPos, incPos token.Pos
-			for _, st := range loop.Body.List {
-				switch x := st.(type) {
-				case *ast.AssignStmt:
-					if len(x.Lhs) != 1 || len(x.Rhs) != 1 {
-						continue
-					}
-					if x.Tok == token.DEFINE {
-						if b, ok := ast.Unparen(x.Rhs[0]).(*ast.BinaryExpr); ok && b.Op == token.ADD && prog.IdentObj(info, b.X) == cursor && prog.IdentObj(info, b.Y) == quoVar {
-							endVar = prog.IdentObj(info, x.Lhs[0])
-							okEnd = true
+			// the cursor: the integer variable that is 0 before the first iteration and is assigned in the
+			// body (declared before the loop or in the loop header)
+			var cursor types.Object
+			isZero := func(e ast.Expr) bool {
+				tv, ok := info.Types[e]
+				return ok && tv.Value != nil && tv.Value.String() == "0"
+			}
+			inspect(f.Decl.Body, func(nd ast.Node) bool {
+				if x, ok := nd.(*ast.AssignStmt); ok && x.Tok == token.DEFINE && len(x.Lhs) == len(x.Rhs) && x.Pos() < loop.Body.Pos() {
+					for i, l := range x.Lhs {
+						o := prog.IdentObj(info, l)
+						if o == nil || o == idx || !isZero(x.Rhs[i]) {
+							continue
 						}
-						continue
-					}
-					if prog.IdentObj(info, x.Lhs[0]) == cursor && endVar != nil && prog.IdentObj(info, x.Rhs[0]) == endVar {
-						okAdvance, advPos = true, x.Pos()
-					}
-					if ix, ok := ast.Unparen(x.Lhs[0]).(*ast.IndexExpr); ok && prog.IdentObj(info, ix.Index) == idx {
-						if cl, ok := ast.Unparen(x.Rhs[0]).(*ast.CompositeLit); ok {
-							got := map[string]types.Object{}
-							for _, el := range cl.Elts {
-								if kv, ok := el.(*ast.KeyValueExpr); ok {
-									got[kv.Key.(*ast.Ident).Name] = prog.IdentObj(info, kv.Value)
+						assigned := false
+						inspect(loop.Body, func(m ast.Node) bool {
+							if as, ok := m.(*ast.AssignStmt); ok {
+								for _, ll := range as.Lhs {
+									if prog.IdentObj(info, ll) == o {
+										assigned = true
+									}
 								}
 							}
-							if got["Start"] == cursor && endVar != nil && got["End"] == endVar {
-								okLit, litPos = true, x.Pos()
-							}
-						}
-					}
-				case *ast.IfStmt:
-					if b, ok := ast.Unparen(x.Cond).(*ast.BinaryExpr); ok && b.Op == token.LSS && prog.IdentObj(info, b.X) == idx && prog.IdentObj(info, b.Y) == remVar && x.Else == nil && len(x.Body.List) == 1 {
-						if inc, ok := x.Body.List[0].(*ast.IncDecStmt); ok && inc.Tok == token.INC && endVar != nil && prog.IdentObj(info, inc.X) == endVar {
-							okInc, incPos = true, x.Pos()
+							return true
+						})
+						if assigned {
+							cursor = o
 						}
 					}
 				}
+				return true
+			})
+			if cursor == nil {
+				bad("shape", "no cursor that starts at 0 and is advanced in the loop")
+				return
 			}
-			if !okEnd {
-				bad("end", "end is not cursor + count/n")
-			}
-			if !okInc {
-				bad("extra", "the +1 is not given exactly to the ranges with index < count mod n")
-			}
-			if !okLit {
-				bad("literal", "the range is not {Start: cursor, End: end}")
-			}
-			if !okAdvance {
-				bad("advance", "the cursor is not advanced to end after each range")
-			}
-			if okInc && okLit && okAdvance && !(incPos < litPos && litPos < advPos) {
-				bad("order", "the order must be: extend end, record the range, advance the cursor")
+			// symbolic execution of one iteration, for i < rem, i == rem and i > rem (each occurs for some count, n):
+			// afterwards ranges[i] = {Start: c, End: c + quo + [i<rem]} and cursor = End
+			for _, sign := range []int{-1, 0, 1} {
+				lt := sign < 0
+				ev := &linEval{r: r, info: info, sign: sign, env: map[types.Object]lin{
+					cursor: {"c": 1}, idx: {"i": 1},
+				}}
+				if quoVar != nil {
+					ev.env[quoVar] = lin{"q": 1}
+				}
+				if remVar != nil {
+					ev.env[remVar] = lin{"r": 1}
+				}
+				ev.sym = func(x ast.Expr) (lin, bool) {
+					switch {
+					case isBin(x, token.QUO):
+						return lin{"q": 1}, true
+					case isBin(x, token.REM):
+						return lin{"r": 1}, true
+					}
+					return nil, false
+				}
+				ev.block(loop.Body.List)
+				caseName := map[int]string{-1: "i < count mod n", 0: "i == count mod n", 1: "i > count mod n"}[sign]
+				if ev.undecided != "" {
+					r.Error("undecided: keyGroupRanges: %s", ev.undecided)
+					return
+				}
+				wantEnd := lin{"c": 1, "q": 1}
+				if lt {
+					wantEnd[""] = 1
+				}
+				switch {
+				case ev.start == nil || ev.end == nil:
+					bad("literal", "the loop does not store ranges[i] = KeyGroupRange{Start, End} ("+caseName+")")
+				case !ev.start.eq(lin{"c": 1}):
+					bad("start", "range i does not start at the cursor ("+caseName+"): Start = "+ev.start.String())
+				case !ev.end.eq(wantEnd):
+					bad("end", "range i does not end at cursor + count/n"+map[bool]string{true: " + 1", false: ""}[lt]+" ("+caseName+"): End = "+ev.end.String())
+				case !ev.env[cursor].eq(wantEnd):
+					bad("advance", "the cursor is not advanced to the end of range i ("+caseName+"): cursor = "+ev.env[cursor].String())
+				}
 			}
 			// ranges slice has rangeCount elements
 			okLen := false
@@ -925,5 +981,235 @@ func (r *Run) checkDecodeKey() {
 	want := []string{"skip[3:]", "read:BE:uint32", "seek:subjectKeyLen:io.SeekCurrent", "read:BE:uint8", "alloc:namespaceLen", "read:BE:[]byte", "rest"}
 	if strings.Join(seq, " ") != strings.Join(want, " ") {
 		r.Fail(f.Name()+":sequence", f.Decl.Pos(), nil, "decodeKey does not mirror encodeDBKey: it consumes [%s], the key format requires [%s]", strings.Join(seq, " "), strings.Join(want, " "))
+	}
+}
+
+// linEval executes straight-line integer code with `if` branches on (idx <op> rem) over linear
+// forms, for one fixed outcome of "idx < rem". It records the Start / End stored into
+// ranges[idx] by a KeyGroupRange literal. Calls of new helpers are evaluated in place.
+type linEval struct {
+	r          *Run
+	info       *types.Info
+	sign       int // the fixed outcome of comparing idx with rem: -1, 0, +1
+	env        map[types.Object]lin
+	start, end lin
+	undecided  string
+	ret        lin                        // value returned by the helper being evaluated
+	sym        func(ast.Expr) (lin, bool) // expressions with a fixed symbolic value (count/n, count%n written inline)
+	returned   bool
+}
+
+func (e *linEval) val(x ast.Expr) (lin, bool) {
+	x = stripConv(e.info, x)
+	if tv, ok := e.info.Types[x]; ok && tv.Value != nil {
+		v := 0
+		if _, err := sscanInt(tv.Value.String(), &v); err == nil {
+			return lin{"": v}, true
+		}
+	}
+	if e.sym != nil {
+		if l, ok := e.sym(x); ok {
+			return l, true
+		}
+	}
+	switch y := ast.Unparen(x).(type) {
+	case *ast.Ident:
+		if o := e.info.Uses[y]; o != nil {
+			if l, ok := e.env[o]; ok {
+				return l, true
+			}
+		}
+	case *ast.BinaryExpr:
+		a, ok1 := e.val(y.X)
+		b, ok2 := e.val(y.Y)
+		if ok1 && ok2 {
+			switch y.Op {
+			case token.ADD:
+				return a.add(b), true
+			case token.SUB:
+				nb := lin{}
+				for k, v := range b {
+					nb[k] = -v
+				}
+				return a.add(nb), true
+			}
+		}
+	case *ast.CallExpr:
+		// a new helper evaluated in place
+		if hf := e.r.P.FuncInfoOf(e.r.P.CalleeFunc(e.info, y)); isNewHelper(e.r.P, hf) && hf.Decl.Type.Params != nil {
+			sub := &linEval{r: e.r, info: hf.Pkg.TypesInfo, sign: e.sign, env: map[types.Object]lin{}}
+			k := 0
+			for _, f := range hf.Decl.Type.Params.List {
+				for _, n := range f.Names {
+					if k < len(y.Args) {
+						if v, ok := e.val(y.Args[k]); ok {
+							sub.env[hf.Pkg.TypesInfo.Defs[n]] = v
+						}
+					}
+					k++
+				}
+			}
+			sub.block(hf.Decl.Body.List)
+			if sub.undecided == "" && sub.returned {
+				return sub.ret, true
+			}
+		}
+	}
+	return nil, false
+}
+
+// cond decides a comparison between idx and rem under the fixed case.
+func (e *linEval) cond(x ast.Expr) (bool, bool) {
+	x = ast.Unparen(x)
+	if u, ok := x.(*ast.UnaryExpr); ok && u.Op == token.NOT {
+		v, ok := e.cond(u.X)
+		return !v, ok
+	}
+	b, ok := x.(*ast.BinaryExpr)
+	if !ok {
+		return false, false
+	}
+	l, ok1 := e.val(b.X)
+	rr, ok2 := e.val(b.Y)
+	if !ok1 || !ok2 {
+		return false, false
+	}
+	isI := func(v lin) bool { return v.eq(lin{"i": 1}) }
+	isR := func(v lin) bool { return v.eq(lin{"r": 1}) }
+	op := b.Op
+	if isR(l) && isI(rr) { // r <op> i  ==  i <flip> r
+		l, rr = rr, l
+		op = map[token.Token]token.Token{token.LSS: token.GTR, token.GTR: token.LSS, token.LEQ: token.GEQ, token.GEQ: token.LEQ}[op]
+	}
+	if !isI(l) || !isR(rr) {
+		return false, false
+	}
+	switch op {
+	case token.LSS:
+		return e.sign < 0, true
+	case token.GEQ:
+		return e.sign >= 0, true
+	case token.LEQ:
+		return e.sign <= 0, true
+	case token.GTR:
+		return e.sign > 0, true
+	case token.EQL:
+		return e.sign == 0, true
+	case token.NEQ:
+		return e.sign != 0, true
+	}
+	return false, false
+}
+
+func (e *linEval) block(list []ast.Stmt) {
+	for _, st := range list {
+		if e.undecided != "" || e.returned {
+			return
+		}
+		switch x := st.(type) {
+		case *ast.AssignStmt:
+			if len(x.Lhs) != len(x.Rhs) {
+				e.undecided = "tuple assignment in the range loop"
+				return
+			}
+			vals := make([]lin, len(x.Rhs))
+			for i, rh := range x.Rhs {
+				if cl, ok := ast.Unparen(rh).(*ast.CompositeLit); ok {
+					// ranges[i] = KeyGroupRange{Start: .., End: ..}
+					if ix, ok := ast.Unparen(x.Lhs[i]).(*ast.IndexExpr); ok {
+						if iv, ok := e.val(ix.Index); ok && iv.eq(lin{"i": 1}) {
+							for k, el := range cl.Elts {
+								var name string
+								var v ast.Expr
+								if kv, ok := el.(*ast.KeyValueExpr); ok {
+									name, v = kv.Key.(*ast.Ident).Name, kv.Value
+								} else {
+									name, v = []string{"Start", "End"}[k%2], el
+								}
+								if lv, ok := e.val(v); ok {
+									if name == "Start" {
+										e.start = lv
+									} else if name == "End" {
+										e.end = lv
+									}
+								} else {
+									e.undecided = "a range bound is not a linear expression of cursor, quotient and 1"
+									return
+								}
+							}
+						}
+					}
+					continue
+				}
+				v, ok := e.val(rh)
+				if !ok {
+					if _, isIdent := ast.Unparen(x.Lhs[i]).(*ast.Ident); isIdent {
+						// an unknown value: the variable becomes unknown
+						if o := prog.IdentObj(e.info, x.Lhs[i]); o != nil {
+							delete(e.env, o)
+						}
+					}
+					continue
+				}
+				vals[i] = v
+			}
+			for i, l := range x.Lhs {
+				if vals[i] == nil {
+					continue
+				}
+				o := prog.IdentObj(e.info, l)
+				if o == nil {
+					continue
+				}
+				switch x.Tok {
+				case token.ASSIGN, token.DEFINE:
+					e.env[o] = vals[i]
+				case token.ADD_ASSIGN:
+					e.env[o] = e.env[o].add(vals[i])
+				default:
+					delete(e.env, o)
+				}
+			}
+		case *ast.IncDecStmt:
+			if o := prog.IdentObj(e.info, x.X); o != nil {
+				if cur, ok := e.env[o]; ok {
+					d := 1
+					if x.Tok == token.DEC {
+						d = -1
+					}
+					e.env[o] = cur.add(lin{"": d})
+				}
+			}
+		case *ast.IfStmt:
+			if x.Init != nil {
+				e.block([]ast.Stmt{x.Init})
+			}
+			v, ok := e.cond(x.Cond)
+			if !ok {
+				e.undecided = "a condition in the range loop is not a comparison of the index with count mod n: " + types.ExprString(x.Cond)
+				return
+			}
+			if v {
+				e.block(x.Body.List)
+			} else if x.Else != nil {
+				e.block([]ast.Stmt{x.Else})
+			}
+		case *ast.BlockStmt:
+			e.block(x.List)
+		case *ast.ReturnStmt:
+			if len(x.Results) == 1 {
+				if v, ok := e.val(x.Results[0]); ok {
+					e.ret, e.returned = v, true
+					return
+				}
+			}
+			e.undecided = "a helper returns something that is not linear"
+			return
+		case *ast.DeclStmt, *ast.ExprStmt, *ast.EmptyStmt:
+			// declarations without effect on the tracked values, logging
+		default:
+			e.undecided = fmt.Sprintf("statement %T in the range loop", st)
+			return
+		}
 	}
 }
